@@ -104,6 +104,13 @@ func (e *Engine) gotoBlock(f *Frame, b *ssa.BasicBlock) {
 func (e *Engine) enterBlock(s *State, f *Frame, probe *probeRec) bool {
 	b := f.blk
 	f.visits[b]++
+	if os.Getenv("GOVC_DEBUG_BLOCK") != "" && fmt.Sprint(b.Index) == os.Getenv("GOVC_DEBUG_BLOCK") && len(s.stack) == 1 {
+		pi := -1
+		if f.prev != nil {
+			pi = f.prev.Index
+		}
+		fmt.Fprintf(os.Stderr, "enter block %d from %d visits %d probe %v\n", b.Index, pi, f.visits[b], probe != nil)
+	}
 	if f.visits[b] > 70000 {
 		panic(execError{"block visited too often in " + f.fn.Name() + " (loop needs an invariant)"})
 	}
@@ -154,6 +161,9 @@ func (e *Engine) enterBlock(s *State, f *Frame, probe *probeRec) bool {
 		return true
 	}
 	invs := f.contract.LoopInv[li.ordinal[b]]
+	if os.Getenv("GOVC_DEBUG_BLOCK") != "" && fmt.Sprint(b.Index) == os.Getenv("GOVC_DEBUG_BLOCK") {
+		fmt.Fprintf(os.Stderr, "  header %d ordinal %d invs %d contract %s\n", b.Index, li.ordinal[b], len(invs), f.contract.Key())
+	}
 	if len(invs) == 0 {
 		return true
 	}
@@ -510,7 +520,7 @@ func (e *Engine) step(s *State, f *Frame, in ssa.Instruction, work *[]*State, pr
 		if _, isHeader := f.loops.body[f.blk]; isHeader || f.visits[f.blk] > 1 {
 			f.symIters++
 			if f.symIters > 96 {
-				panic(execError{"loop with a symbolic bound in " + f.fn.Name() + " needs an invariant (or its callee a contract)"})
+				panic(execError{"loop with a symbolic bound in " + f.fn.Name() + " at block " + fmt.Sprint(f.blk.Index) + " (" + f.blk.Comment + ", visits " + fmt.Sprint(f.visits[f.blk]) + ", probe " + fmt.Sprint(probe != nil) + ") needs an invariant (or its callee a contract)"})
 			}
 		}
 		// symbolic branch: prune a side that the path condition excludes (interval reasoning first,
